@@ -296,28 +296,153 @@ class _BytesBase:
         sub = items_of(o)
         return self.find(o) >= 0
 
-    def find(self, sub, start=0):
+    def _range(self, start, end):
+        n = _real_len(self._items())
+        a = 0 if start is None else conc_index(start)
+        b = n if end is None else conc_index(end)
+        if a < 0:
+            a = max(0, a + n)
+        if b < 0:
+            b = max(0, b + n)
+        return a, min(b, n)
+
+    def _sub(self, sub):
+        return items_of(sub) if is_byteslike(sub) else [byte_item(sub)]
+
+    def find(self, sub, start=None, end=None):
         items = self._items()
-        sub = items_of(sub) if is_byteslike(sub) else [byte_item(sub)]
-        n, k = _real_len(items), _real_len(sub)
-        for i in range(start, n - k + 1):
+        sub = self._sub(sub)
+        a, b = self._range(start, end)
+        k = _real_len(sub)
+        for i in range(a, b - k + 1):
             if _real_bool(seq_eq(items[i : i + k], sub)):
                 return i
         return -1
 
-    def startswith(self, p):
-        p = items_of(p)
+    def rfind(self, sub, start=None, end=None):
         items = self._items()
-        if _real_len(p) > _real_len(items):
-            return False
-        return _real_bool(seq_eq(items[: _real_len(p)], p))
+        sub = self._sub(sub)
+        a, b = self._range(start, end)
+        k = _real_len(sub)
+        for i in range(b - k, a - 1, -1):
+            if _real_bool(seq_eq(items[i : i + k], sub)):
+                return i
+        return -1
 
-    def endswith(self, p):
-        p = items_of(p)
+    def index(self, sub, start=None, end=None):
+        i = self.find(sub, start, end)
+        if i < 0:
+            raise ValueError("subsection not found")
+        return i
+
+    def rindex(self, sub, start=None, end=None):
+        i = self.rfind(sub, start, end)
+        if i < 0:
+            raise ValueError("subsection not found")
+        return i
+
+    def count(self, sub, start=None, end=None):
         items = self._items()
+        sub = self._sub(sub)
+        a, b = self._range(start, end)
+        k = _real_len(sub)
+        if k == 0:
+            return max(0, b - a) + 1
+        n, i = 0, a
+        while i <= b - k:
+            if _real_bool(seq_eq(items[i : i + k], sub)):
+                n += 1
+                i += k
+            else:
+                i += 1
+        return n
+
+    def _affix(self, p, start, end, at_end):
+        if _real_isinstance(p, tuple):
+            for q in p:
+                if self._affix(q, start, end, at_end):
+                    return True
+            return False
+        p = items_of(p)
+        a, b = self._range(start, end)
+        items = self._items()[a:b] if a <= b else []
         if _real_len(p) > _real_len(items):
             return False
-        return _real_bool(seq_eq(items[_real_len(items) - _real_len(p) :], p))
+        part = items[_real_len(items) - _real_len(p) :] if at_end else items[: _real_len(p)]
+        return _real_bool(seq_eq(part, p))
+
+    def startswith(self, p, start=None, end=None):
+        return self._affix(p, start, end, False)
+
+    def endswith(self, p, start=None, end=None):
+        return self._affix(p, start, end, True)
+
+    def partition(self, sep):
+        i = self.find(sep)
+        k = _real_len(items_of(sep))
+        if i < 0:
+            return (self._mk(list(self._items())), mk_bytes([]), mk_bytes([]))
+        return (self._slice(0, i), mk_bytes(items_of(sep)), self._slice(i + k, _real_len(self._items())))
+
+    def rpartition(self, sep):
+        i = self.rfind(sep)
+        k = _real_len(items_of(sep))
+        if i < 0:
+            return (mk_bytes([]), mk_bytes([]), self._mk(list(self._items())))
+        return (self._slice(0, i), mk_bytes(items_of(sep)), self._slice(i + k, _real_len(self._items())))
+
+    def _strip(self, chars, left, right):
+        items = list(self._items())
+        if chars is None:
+            chars = b" \t\n\r\x0b\x0c"
+        cs = list(_real_bytes(conc_items(items_of(chars))))
+        a, b = 0, _real_len(items)
+        if left:
+            while a < b and _real_bool(sor(*[elem(items[a]) == c for c in cs])):
+                a += 1
+        if right:
+            while b > a and _real_bool(sor(*[elem(items[b - 1]) == c for c in cs])):
+                b -= 1
+        return self._slice(a, b)
+
+    def strip(self, chars=None):
+        return self._strip(chars, True, True)
+
+    def lstrip(self, chars=None):
+        return self._strip(chars, True, False)
+
+    def rstrip(self, chars=None):
+        return self._strip(chars, False, True)
+
+    def replace(self, old, new, count=-1):
+        parts = self.split(old, count)
+        out = []
+        for i, p_ in enumerate(parts):
+            if i:
+                out += items_of(new)
+            out += items_of(p_)
+        return self._mk(out)
+
+    def join(self, it):
+        out = []
+        for i, p_ in enumerate(it):
+            if i:
+                out += list(self._items())
+            out += items_of(p_)
+        return mk_bytes(out)
+
+    def __getattr__(self, name):
+        # a bytes method without a model: pin the octets to palette values and run the real
+        # method - the unit becomes partial (see sx/hunt.py)
+        if name.startswith("_") or not hasattr(b"", name):
+            raise AttributeError(name)
+        from . import hunt
+
+        def call(*a, **kw):
+            what = "bytes." + name
+            return getattr(hunt.conc(self, what), name)(*[hunt.conc(x, what) for x in a], **{k: hunt.conc(x, what) for k, x in kw.items()})
+
+        return call
 
     def split(self, sep=None, maxsplit=-1):
         if sep is None:
@@ -352,9 +477,6 @@ class _BytesBase:
 
     def hex(self):
         return _real_bytes(conc_items(self._items())).hex()
-
-    def upper(self):
-        raise Unsupported("bytes.upper")
 
     def __repr__(self):
         return PLACEHOLDER
